@@ -17,7 +17,7 @@ run1() {
   ./bin/mcverif-corpus -repo /tmp/pristine -verif /tmp/vdev -harness harness-c$slot -prop all -patch $dir/patch.diff > $out 2>&1
   if grep -q "^patch: " $out; then
     ./bin/mcverif-corpus -repo /tmp/pristine_old -verif /tmp/vdev -harness harness-o$slot -prop all -patch $dir/patch.diff > $out.old 2>&1
-    grep -v "A3.restart-resets-outflow\|A7.decision-signer-form" $out.old > $out; echo "OLDBASE" >> $out; rm -f $out.old
+    grep -v "A3.restart-resets-outflow\|A7.decision-signer-form\|A11.parser|x/stream/types.FirstAddressFromStreamStoreKey|width" $out.old > $out; echo "OLDBASE" >> $out; rm -f $out.old
   fi
 }
 export -f run1
